@@ -28,6 +28,24 @@ Theorem C05_string_violation_fires_iff_documented : forall s o, inv s -> op_wf o
 Proof. exact string_fires_iff_doc. Qed.
 Print Assumptions C05_string_violation_fires_iff_documented.
 
+(* ... and against the standard's preconditions ([pre_std]: additionally pos <= str.size() for append / assign / constructor
+   (str, pos, count)), everywhere outside the recorded defect region; inside it the call is NOT stopped
+   (KF-C05-string-substr-pos-unchecked: inplace_string::substr returns an empty string, pinned by tests/string) *)
+Theorem C05_string_violation_fires_iff_std : forall s o, inv s -> op_wf o -> ptr_ok o -> substr_pos_ok o = true ->
+  (step s o = Contract <-> pre_std (zlen (contents s)) (cap s) o = false).
+Proof. exact string_fires_iff_std. Qed.
+Print Assumptions C05_string_violation_fires_iff_std.
+
+Theorem C05_string_substr_pos_refuted : exists s o, ctor_ptr 4 CChar [97; 98; 99] 3 = Ok s /\ inv s /\ op_wf o /\ ptr_ok o /\
+  pre_std (zlen (contents s)) (cap s) o = false /\ step s o <> Contract.
+Proof.
+  eexists. exists (OAppendStrSub [] 1 0). split; [vm_compute; reflexivity|].
+  split; [unfold inv, cap_ok; vm_compute; repeat split; discriminate|].
+  split; [unfold op_wf, szt; lia|]. split; [exact Logic.I|].
+  split; [vm_compute; reflexivity|]. vm_compute. discriminate.
+Qed.
+Print Assumptions C05_string_substr_pos_refuted.
+
 Theorem C05_string_valid_call_returns : forall s o, inv s -> op_wf o -> ptr_ok o -> pre_ok s o = true ->
   exists s', step s o = Ok s' /\ inv s' /\ cap s' = cap s /\ ckind s' = ckind s.
 Proof. exact string_valid_returns. Qed.
